@@ -127,6 +127,7 @@ var fancyKeys = []keyForm{{`"k\"q"`, `k"q`}, {`"tab\tx"`, "tab\tx"}, {`"sl\/ash"
 	{`"é"`, "é"}, {`"emo😀"`, "emo😀"}, {`"😀pair"`, "😀pair"}, {`""`, ""}, {`"<&>"`, "<&>"}, {`"nl\nx"`, "nl\nx"}, {`"Az"`, "Az"}, {`"日本"`, "日本"},
 	// characters that JSON escapes as \u00XX or leaves raw, and Go's strconv.Quote writes as \x01 \a \v \x7f \U000e0001
 	// names that differ only by surrounding white space (and the empty name is above): nothing may normalise them
+	{`"x\ny"`, "x\ny"}, // a name with a line break (quoted with back quotes in a query)
 	{`" a"`, " a"}, {`"a "`, "a "}, {`"\ta"`, "\ta"}, {`" "`, " "}, {`" level "`, " level "},
 	{`"c\u0001x"`, "c\x01x"}, {`"bel\u0007"`, "bel\a"}, {`"vt\u000b"`, "vt\v"}, {"\"del\x7f\"", "del\x7f"},
 	{"\"tag\U000E0001\"", "tag\U000E0001"}, {`"\udb40\udc01esc"`, "\U000E0001esc"}, {`"ff\u000c"`, "ff\f"}}
@@ -319,7 +320,8 @@ func kwCase(r *vh.RNG, kw string) string {
 }
 
 // uniSpaces are separators the lexer skips with unicode.IsSpace (ASCII blank, tab, NBSP, NEL, EM SPACE, IDEOGRAPHIC SPACE)
-var uniSpaces = []string{" ", " ", "  ", "\t", "\u00a0", "\u0085", "\u2003", "\u3000"}
+var uniSpaces = []string{" ", " ", "  ", "\t", "\u00a0", "\u0085", "\u2003", "\u3000",
+	"\n", "\r\n", " # note | fields z\n", "\n# a comment line\r\n  "} // a `#` comment runs to the end of its line: white space
 
 // parseChannel: parser.parsePipeFields / parseFieldList / parseCompositeToken (through search.tryParseFieldsFilter)
 // vs SV.Fields.parsePipeFields on the token list the lexer produces for the generated text.
@@ -332,7 +334,7 @@ func parseChannel(o vh.Opts, r *vh.RNG) *vh.Channel {
 	}
 	words := []string{"a", "b", "message", "k8s_pod", "level", "a.b", "ts", "zone_1", "x", "é", "日本", "Except", "or", "fields",
 		"ж", "中", "٣", "naïve", "٣٤", "éa", "x٣"} // letters and digits of several scripts
-	quotedNames := []string{"except", "EXCEPT", "fields", "x y", "a|b", "", "k$"}
+	quotedNames := []string{"except", "EXCEPT", "fields", "x y", "a|b", "", "k$", "x\ny", "# no comment"}
 	symbols := []string{"$", "%", "&", "@", "-", "-", "*", "€", "—", "™", "°", "¿", "😀"} // one rune each; the non-ASCII ones are no letters
 	n := o.Pick(1200, 15000)
 	for i := 0; i < n; i++ {
@@ -405,11 +407,18 @@ func parseChannel(o vh.Opts, r *vh.RNG) *vh.Channel {
 				if sp[0] >= 0x80 {
 					uni = true
 				}
+				if strings.Contains(sp, "#") {
+					tags = append(tags, "comment")
+				}
 				text.WriteString(sp)
 			}
 			m := "u"
 			if t.quoted {
-				text.WriteString(`"` + t.text + `"`)
+				if strings.Contains(t.text, "\n") {
+					text.WriteString("`" + t.text + "`")
+				} else {
+					text.WriteString(`"` + t.text + `"`)
+				}
 				m = "q"
 			} else {
 				text.WriteString(t.text)
@@ -712,10 +721,12 @@ func searchOracle(o vh.Opts, r *vh.RNG, rep *vh.Report, g *storeapi.GrpcV1, docs
 		for _, f := range fields {
 			simple := f != ""
 			for _, c := range f {
-				simple = simple && (c >= 'a' && c <= 'z' || c >= 'A' && c <= 'Z' || c >= '0' && c <= '9' || c == '_' || c == '|' || c == ' ' || c == '.')
+				simple = simple && (c >= 'a' && c <= 'z' || c >= 'A' && c <= 'Z' || c >= '0' && c <= '9' || c == '_' || c == '|' || c == ' ' || c == '.' || c == '\n')
 			}
 			ok = ok && simple
-			if strings.ContainsAny(f, "| .") {
+			if strings.Contains(f, "\n") {
+				f = "`" + f + "`" // a raw string keeps the line break
+			} else if strings.ContainsAny(f, "| .") {
 				f = `"` + f + `"`
 			}
 			qn = append(qn, f)
@@ -725,13 +736,25 @@ func searchOracle(o vh.Opts, r *vh.RNG, rep *vh.Report, g *storeapi.GrpcV1, docs
 		}
 		allow := r.Bool()
 		flt := longFilter(r)
-		qs := flt + " | " + kwCase(r, "fields") + " "
+		// the query is written on one line or on several: `#` comment lines (holding a `|` and the word fields) before the
+		// pipe, LF or CRLF line ends
+		sepPipe := " | "
+		multiline := "no"
+		switch r.Intn(4) {
+		case 0:
+			sepPipe = "\n# project the answer | fields nothing\n| "
+			multiline = "comment-line-before-pipe"
+		case 1:
+			sepPipe = "\r\n# only a few | fields\r\n  | "
+			multiline = "comment-line-before-pipe-crlf"
+		}
+		qs := flt + sepPipe + kwCase(r, "fields") + " "
 		mode := "allow"
 		if !allow {
 			qs += kwCase(r, "except") + " "
 			mode = "except"
 		}
-		qs += strings.Join(qn, []string{", ", ",", " ", "\u00a0", "\u3000", " , "}[r.Intn(6)])
+		qs += strings.Join(qn, []string{", ", ",", " ", "\u00a0", "\u3000", " , ", ",\n  ", "\n# and\n"}[r.Intn(8)])
 		if r.Intn(4) == 0 {
 			qs += " # only | these"
 		}
@@ -807,7 +830,7 @@ func searchOracle(o vh.Opts, r *vh.RNG, rep *vh.Report, g *storeapi.GrpcV1, docs
 		if len(flt) > 200 {
 			tagLong = "long-text-literal=yes"
 		}
-		orc.Case(line, keptAny && removedAny, "mode="+mode, fmt.Sprintf("order=%d", order), tagDown, tagLong)
+		orc.Case(line, keptAny && removedAny, "mode="+mode, fmt.Sprintf("order=%d", order), tagDown, tagLong, "multi-line="+multiline)
 		if bad != "" {
 			rep.Violate(vh.Violation{Site: "proxy/search/ingestor.go:Search", Class: "wrong-projection-or-document-set", What: bad + " (query " + qs + ")", Replay: []string{line}})
 		}
@@ -1191,6 +1214,67 @@ func proxyFetchOracle(o vh.Opts, r *vh.RNG, rep *vh.Report, g *storeapi.GrpcV1, 
 		orc.Case(line, kept && removed, "mode="+mode)
 		if bad != "" {
 			rep.Violate(vh.Violation{Site: "proxyapi/grpc_fetch.go:Fetch", Class: "wrong-projection", What: bad, Replay: []string{line}})
+		}
+	}
+	return orc
+}
+
+// slowStream is a fetch stream whose consumer is slow on the first messages (the loader runs ahead).
+type slowStream struct {
+	fakeStream
+	slow int
+}
+
+func (s *slowStream) Send(d *pb.BinaryData) error {
+	if len(s.blocks) < s.slow {
+		time.Sleep(2 * time.Millisecond)
+	}
+	return s.fakeStream.Send(d)
+}
+
+// slowStreamOracle: one filtered fetch of ~1800 documents (two chunks of the store's docs stream) whose consumer is
+// slower than the background loader.
+func slowStreamOracle(o vh.Opts, r *vh.RNG, rep *vh.Report) *vh.Oracle {
+	orc := vh.NewOracle("fields.slowstream", "real storeapi.GrpcV1.Fetch of 1500-1900 stored documents (more than one chunk of the docs stream) with an allow list and with an except list, through a stream whose Send sleeps 2 ms on the first 40 messages (the batch loader runs one batch ahead of the sender); every answer must be its own projection; non-trivial = all")
+	st, err := buildStore(r.Fork(), 2000)
+	if err != nil {
+		orc.Error = err.Error()
+		return orc
+	}
+	defer func() { st.fm.Stop(); os.RemoveAll(st.dir) }()
+	for q := 0; q < o.Pick(2, 8); q++ {
+		n := 1500 + r.Intn(400)
+		perm := r.Perm(len(st.docs))[:n]
+		allow := q%2 == 0
+		base := &st.docs[perm[r.Intn(n)]]
+		fields := []string{"a", "level", "msg", "g7"}
+		for _, k := range base.keys {
+			fields = append(fields, k.name)
+		}
+		mode := "except"
+		if allow {
+			mode = "allow"
+		}
+		req := &pb.FetchRequest{FieldsFilter: &pb.FetchRequest_FieldsFilter{Fields: fields, AllowList: allow}}
+		for _, pi := range perm {
+			req.Ids = append(req.Ids, st.docs[pi].id.String())
+		}
+		line := fmt.Sprintf("slowstream seed=%d req=%d %s n=%d", o.Seed, q, mode, n)
+		fs := &slowStream{fakeStream: fakeStream{ctx: context.Background()}, slow: 40}
+		bad := ""
+		if err := st.g.Fetch(req, fs); err != nil {
+			bad = "fetch failed: " + err.Error()
+		} else if len(fs.blocks) != n {
+			bad = fmt.Sprintf("%d entries for %d ids", len(fs.blocks), n)
+		}
+		for i := 0; bad == "" && i < n; i++ {
+			if m := checkProjection(&st.docs[perm[i]], disk.DocBlock(fs.blocks[i]).Payload(), fields, allow, true); m != "" {
+				bad = fmt.Sprintf("entry %d of %d: %s", i, n, m)
+			}
+		}
+		orc.Case(line, true, "mode="+mode)
+		if bad != "" {
+			rep.Violate(vh.Violation{Site: "storeapi/docs_stream.go:batchLoader", Class: "filtered-batch-overwritten", What: bad, Replay: []string{line}})
 		}
 	}
 	return orc
@@ -1590,6 +1674,14 @@ func main() {
 			os.Exit(3)
 		}
 		for _, l := range lines {
+			if strings.HasPrefix(l, "slowstream seed=") {
+				var cs int64
+				fmt.Sscanf(l, "slowstream seed=%d", &cs)
+				oo := o
+				oo.Seed = cs
+				rep.AddOracle(slowStreamOracle(oo, vh.NewRNG(cs+909), rep))
+				break
+			}
 			if strings.HasPrefix(l, "single seed=") {
 				var cs int64
 				fmt.Sscanf(l, "single seed=%d", &cs)
@@ -1641,6 +1733,9 @@ func main() {
 	}
 	if run("fields.fetch") {
 		rep.AddOracle(fetchOracle(o, r3, rep))
+	}
+	if run("fields.slowstream") {
+		rep.AddOracle(slowStreamOracle(o, vh.NewRNG(o.Seed+909), rep))
 	}
 	if run("fields.single") {
 		rep.AddOracle(singleOracle(o, vh.NewRNG(o.Seed+404), rep))
